@@ -287,8 +287,10 @@ example :
     `C`, `Resolves A S` with a proper `min_x_ = [1]`, defect 1) and the cholesky premise `Net.SolverHyp .chol` on it
     (these are the existing `Ex.npQ_*` facts, stated with `Ex.sqQ`, which agrees with `Ex.sqQ2` on every root
     taken for `Ex.npQ`: 4, 9, 1).
-    NOT witnessed: `Net.SolverHyp` for the SCALED network (only that the model answers there and what it answers),
-    and the global square-root law, which ℚ cannot have and ℝ — the setting of the theorems — has (last example). -/
+    `Net.SolverHyp` for the SCALED network is not witnessed HERE over ℚ (only that the model answers there and what it
+    answers); it is over ℝ: `Props/C09NetWitness.lean` (`C09_net_sigma_apr_scaling_witness`: envelope on `Ex.npR` versus
+    cholesky on `scaleM0 2 Ex.npR`, the scaled network's own `RankGap`), `Props/C09InputGap.lean` (input-side form).
+    NOT witnessed here: the global square-root law, which ℚ cannot have and ℝ — the setting of the theorems — has (last example). -/
 example :
     ((dimsN npQ).sum = npQ.m ∧ RowsOK (toProblem npQ) ∧ npQ.m0 ≠ 0 ∧ Net.Sigma npQ * PcQ = 1 ∧
       Resolves (toProblem npQ).A (toProblem npQ).S ∧
